@@ -669,6 +669,7 @@ def run(ctx):
 
 
 MUTANTS = [
+    {'name': 'revert: closing worker counts itself down before it drops its state', 'edits': [('src/worker_pool.rs', "                                        drop(worker_state);\n\n                                        thread_counter.fetch_sub(1, Relaxed);\n", "                                        thread_counter.fetch_sub(1, Relaxed);\n")]},
     {'name': 'revert: drop floods the worker queue with blocking sends', 'edits': [('src/db.rs', "            if self\n                .worker_pool\n                .sender\n                .try_send(WorkerMessage::Close)\n                .is_err()\n            {\n                while self.worker_pool.rx.try_recv().is_ok() {}\n            }", "            let _ = self.worker_pool.sender.send(WorkerMessage::Close);")]},
     {'name': 'revert: drop makes room with drain (admits no blocked sender)', 'edits': [('src/db.rs', "                while self.worker_pool.rx.try_recv().is_ok() {}", "                let _ = self.worker_pool.rx.drain().count();")]},
     {'name': 'flush queue cleared before the workers stop only', 'edits': [('src/db.rs', "        let _ = self.worker_pool.rx.drain().count();\n\n        while self", "        let _ = self.worker_pool.rx.drain().count();\n        self.supervisor.flush_manager.clear();\n\n        while self"), ('src/db.rs', "        // IMPORTANT: Break cyclic Arcs\n        self.supervisor.flush_manager.clear();", "        // IMPORTANT: Break cyclic Arcs")]},
